@@ -38,7 +38,7 @@ def gen_case(seed, tier="quick"):
     nsteps = rng.choice((1, 2, 3, 5, 8, 12)) if tier == "quick" else rng.choice((3, 6, 12, 20))
     steps = []
     kinds = ["slice", "slice", "mask", "intidx", "reshape", "transpose", "viewcls", "viewnd", "copy", "deepcopy", "pickle",
-             "write_col", "write_elem", "write_rows", "flavor", "coordview", "asarray", "element", "objarray", "newaxis", "ravel"]
+             "write_col", "write_elem", "write_rows", "flavor", "coordview", "asarray", "element", "objarray", "newaxis", "ravel", "int", "int"]
     for _ in range(nsteps):
         k = rng.choice(kinds)
         st = {"s": k, "src": rng.randrange(1 << 16), "r": [rng.randrange(1 << 16) for _ in range(4)]}
@@ -205,6 +205,9 @@ def run_case(case, vector):
             viol.append(_viol("derivation-raised", i, st, f"{origin}: {type(e).__name__}: {e}"))
             return None
         nt = ft(L.twin)
+        if not isinstance(na, numpy.ndarray):
+            viol.append(_viol("array-class", i, st, f"{origin}: got {type(na).__name__}, the plain-numpy model gives an array of shape {getattr(nt, 'shape', None)}"))
+            return None
         if origin.startswith(("reshape", "ravel")) and isinstance(na, numpy.ndarray) and na.size:
             # whether reshape/ravel returns a view or a copy is numpy's decision from the memory layout
             # (an unpickled or transposed array may be F-ordered); the model follows it
@@ -233,6 +236,17 @@ def run_case(case, vector):
             if a.ndim > 1 and r[3] % 2:
                 sl = (slice(None), slice(0, max(a.shape[1] - 1, 0)))
             new = derive(L, lambda x: x[sl], lambda x: x[sl], origin=f"slice{sl}")
+        elif k == "int":
+            # an integer index: the element (object vector) of a 1-D array, a sub-array of the same class otherwise
+            if a.ndim == 0 or a.shape[0] == 0:
+                continue
+            ii = r[0] % (2 * a.shape[0]) - a.shape[0]
+            if r[1] % 3 == 0:
+                ii = numpy.int64(ii)
+            if a.ndim == 1:
+                check_array(vector, L, i, st, viol, case)
+                continue
+            new = derive(L, lambda x: x[ii], lambda x: x[ii], origin=f"int[{ii}]")
         elif k == "mask":
             if a.ndim == 0 or a.shape[0] == 0:
                 continue
